@@ -64,11 +64,52 @@ Definition c05_case : Type :=
   nat * nat * benv * list (list Q) * circuits_arg * observables_arg * nsamples * sdict *
   res (experiments * list (Q * wkind)) * Q * bool.
 
+(* Oracle contract consumed by c05_exact_coeff, evaluated on the dictionary the implementation actually used:
+   for num_samples = inf every joint map whose probability prod_j |c_j|/kappa_j is (clearly) above the 1e-14 cut-off
+   of qpd/weights.py must be a key of the weights dictionary, so that it gets a coefficient and its circuits.
+   (Probabilities are reduced to lowest terms once; the margin 1.5e-14 keeps binary64 noise at the cut-off out.) *)
+Definition cutoff_margin : Q := 15 # 1000000000000000.
+
+Fixpoint all_joint (dims : list nat) : list jkey :=
+  match dims with
+  | [] => [[]]
+  | n :: r => flat_map (fun i => map (cons i) (all_joint r)) (seq 0 n)
+  end.
+
+Fixpoint jprob (probs : list (list Q)) (ids : jkey) : Q :=
+  match probs, ids with
+  | v :: rv, i :: ri => Qred (nth i v 0 * jprob rv ri)%Q
+  | _, _ => 1%Q
+  end.
+
+Definition bases_of (circuits : circuits_arg) : option (list nat) :=
+  match circuits with
+  | CSingle qc => match get_bases 0 (mdata qc) with Ok bi => Some (fst bi) | _ => None end
+  | CDict d => match mapping_by_partition d with Ok _ => Some (bases_by_partition d) | _ => None end
+  | COther => None
+  end.
+
+Definition inf_complete (cenv : list (list Q)) (circuits : circuits_arg) (N : nsamples) (W : sdict) : bool :=
+  match N with
+  | NPosInf =>
+      match bases_of circuits with
+      | None => true
+      | Some bs =>
+          let C := map (fun b => nth b cenv []) bs in
+          let probs := map (fun cs => let k := Qred (kappa_of cs) in map (fun c => Qred (Qabs c / k)%Q) cs) C in
+          let keys := map fst W in
+          forallb (fun ids => if Qle_bool cutoff_margin (jprob probs ids)
+                              then existsb (list_beq Nat.eqb ids) keys else true)
+                  (all_joint (map (@length Q) C))
+      end
+  | _ => true
+  end.
+
 Definition chk_with (cmp : mcirc -> mcirc -> bool) (c : c05_case) : bool :=
   let '(gh, gsx, env, cenv, circuits, observables, N, weights, e, tol, side) := c in
   side &&
   match generate gh gsx env cenv circuits observables N weights, e with
-  | Ok (mx, mc), Ok (ex, ec) => exps_beq cmp mx ex && coeffs_close tol mc ec
+  | Ok (mx, mc), Ok (ex, ec) => exps_beq cmp mx ex && coeffs_close tol mc ec && inf_complete cenv circuits N weights
   | Refused, Refused => true
   | Crashed, Crashed => true
   | _, _ => false
@@ -109,10 +150,11 @@ Definition chk_generate_f2 (c : c05_case) : bool :=
   match generate gh gsx env cenv circuits observables N weights, e with
   | Ok (OutList a, mc), Ok (OutList b, ec) =>
       flagged_beq (dummy_flags (groups_of observables 0) (length ec)) a b && coeffs_close tol mc ec
+      && inf_complete cenv circuits N weights
   | Ok (OutDict a, mc), Ok (OutDict b, ec) =>
       list_beq (fun x y => Nat.eqb (fst x) (fst y) &&
                            flagged_beq (dummy_flags (groups_of observables (fst y)) (length ec)) (snd x) (snd y)) a b
-      && coeffs_close tol mc ec
+      && coeffs_close tol mc ec && inf_complete cenv circuits N weights
   | Refused, Refused => true
   | Crashed, Crashed => true
   | _, _ => false
